@@ -21,6 +21,7 @@ import Ajson.Proofs.RefineDelete
 import Ajson.Proofs.AppendMany
 import Ajson.Proofs.SetNodeValue
 import Ajson.Proofs.AppendManyValue
+import Ajson.Proofs.SetArrayValue
 import Ajson.Model.Decode
 
 namespace Ajson.Props.C05
@@ -212,6 +213,15 @@ theorem C05_append_array_moves {h : Heap} (hs : Struct h) (ha : Acyc h) (n v p :
     (∀ xs x, absVal (fuel + 1) (h.remove p v).1 n = some (.arr xs) → absVal fuel h v = some x →
       absVal (fuel + 1) (h.appendArray n [v]).1 n = some (.arr (xs ++ [x]))) :=
   appendArray_move_refines hs ha n v p hn hv harr hloop hpar fuel
+
+/-- **SetArray is assignment of a list**: for pairwise different elements, each fresh, detached or a child of the receiver itself (none
+of them the receiver or above it), the receiver — whatever it was before: a scalar, an object, an array — afterwards denotes the list of
+what the elements denoted, in order; every node off the receiver's ancestor chain keeps its value -/
+theorem C05_set_array_assigns_the_list {h : Heap} (hs : Struct h) (ha : Acyc h) (n : Nat) (hn : n < h.size) (ids : List Id) (hnd : ids.Nodup)
+    (hids : ∀ v ∈ ids, (v : Nat) < h.size ∧ ¬ Anc h v n ∧ ((h.get v).parent = none ∨ (h.get v).parent = some n)) (fuel : Nat) :
+    (∀ m : Id, ¬ Anc h m n → absVal fuel (h.update (some n) (.arr ids)).1 m = absVal fuel h m) ∧
+    (∀ ys, ids.mapM (fun v => absVal fuel h v) = some ys → absVal (fuel + 1) (h.update (some n) (.arr ids)).1 n = some (.arr ys)) :=
+  setArray_refines hs ha n hn ids hnd hids fuel
 
 /-- **SetNode is assignment of a whole value**: after an accepted `SetNode(value)` the receiver denotes what `value` denotes — at every
 depth: the clone it takes over denotes what the original denotes (`C14_equal_value`) — and every node that existed before and is
